@@ -628,9 +628,18 @@ func (c *Context) Cbrt(d, x *Decimal) (Condition, error) {
 		return res, err
 	}
 
-	var ax, z Decimal
+	var ax, sx, z Decimal
 	ax.Abs(x)
-	z.Set(&ax)
+	// Take the decimal exponent out first, which is exact:
+	// cbrt(sx * 10^(3k)) = cbrt(sx) * 10^k with sx in [0.001, 1000). Otherwise
+	// the range reduction by powers of 8 below would need tens of thousands of
+	// rounded multiplications for operands with large exponents, and their
+	// accumulated error can put the initial estimate so far off that the
+	// iteration does not converge (Cbrt(9E-50000) at Precision 1).
+	k := (ax.NumDigits() + int64(ax.Exponent)) / 3
+	sx.Set(&ax)
+	sx.Exponent -= int32(3 * k)
+	z.Set(&sx)
 	neg := x.Negative
 	nc := BaseContext.WithPrecision(c.Precision*2 + 2)
 	ed := MakeErrDecimal(nc)
@@ -677,7 +686,7 @@ func (c *Context) Cbrt(d, x *Decimal) (Condition, error) {
 		// z = (2.0 * z0 +  x / (z0 * z0) ) / 3.0;
 		z0.Set(&z)
 		ed.Mul(&z, &z, &z0)
-		ed.Quo(&z, &ax, &z)
+		ed.Quo(&z, &sx, &z)
 		ed.Add(&z, &z, &z0)
 		ed.Add(&z, &z, &z0)
 		ed.Quo(&z, &z, decimalThree)
@@ -691,6 +700,9 @@ func (c *Context) Cbrt(d, x *Decimal) (Condition, error) {
 			break
 		}
 	}
+
+	// Put the decimal exponent back.
+	z.Exponent += int32(k)
 
 	// Round z to the nearest value of c.Precision digits and cube that exactly
 	// (ax is |x|; d may alias x). If the cube is |x| the root is exact and is
